@@ -10,6 +10,16 @@ All statements are about the functions of `FeatModel/Model/VecOps.lean` that `dr
 real FEAT code (leaf kernels `…K` = `kernel/lafem/arch/*_generic.hpp`, `MVec.*` = the member functions of
 DenseVector / DenseVectorBlocked / TupleVector / PowerVector). No bound on any size; size 0 and 1 are instances.
 
+MODELLED AS UNBOUNDED: `Index` / `IT_` (array sizes, loop counters, stored sparse indices, the running index of the
+min/max kernels), the `int` block / stride / component arguments and `Tiny::Vector` component counters are `Nat`; the
+scalar type is an exact field (`Q` in the harness); arrays are lists without capacity (MemoryPool's `count % 4` padding
+and SparseVector's `min(size, 1000)`-slot allocation steps exist in the model only as list lengths). No theorem below
+can see a C++ narrowing, a fixed buffer or an allocation-step error. What ties them is the correspondence run, in
+particular the `boundary-sizes` stream of `checks/props/c04.py`: every kernel and every alias branch at pod sizes and
+block counts 127/128/129, 255/256/257, 1000/1001 (thorough: 32767/32768, 65535/65536/65537) with the deciding entries in
+the last positions, sparse vectors with 999…2002 (3001) writes across the 1000-slot reallocation steps (64- and 32-bit
+index type), component copies and flat↔composed copies whose offsets cross the same boundaries.
+
 * `*_alias*`      every alias-specialised branch equals the generic branch with the operands identified;
 * `*_elementwise` the generic branch is the element-wise definition (`List.sum` for the reductions);
 * `*_flatten`     a blocked or composed vector behaves exactly like the plain vector holding the same scalars
